@@ -182,7 +182,11 @@ def run(prog, tier):
                         res.undecided('hide', name, f.loc(nid), 'unknown stream member', function=f.sig, expr=name)
                 else:
                     cu = n['callee']['usr']
-                    if cu in save and cu in prog.funcs:
+                    if 'ostreambuf_iterator' in str(n['callee'].get('qname', '')) or 'ostreambuf_iterator' in str(n['callee'].get('class', '')):
+                        # [ostreambuf.iterator]: writes go to the stream buffer with sputc; a failure is remembered in the iterator's own failed() flag only
+                        res.viol('hide', 'std::ostreambuf_iterator on the output stream', f.loc(nid), 'output is sent through std::ostreambuf_iterator: a failed write sets the iterator\'s private failed() flag, never the '
+                                 'stream state that save tests, so the failure is not reported', function=f.sig, expr='ostreambuf_iterator', sure=True)
+                    elif cu in save and cu in prog.funcs:
                         res.ok('hide', 'passes stream to ' + n['callee']['qname'], f.loc(nid), function=f.sig,
                                expr='pass:%s@%d' % (n['callee']['qname'], nid), nontrivial=False)
                     else:
@@ -366,6 +370,8 @@ def run(prog, tier):
     def step(vid, state):
         env = state[4] if len(state) > 4 else frozenset()
         env2 = update_env(g.node_of(vid), env)
+        if vid in outv_:
+            env2 = frozenset(set(env2) | {('#wrote', 'nonnull')})     # something was handed to the stream on this path
         return [(ns[:4] + (env2,), tg) for ns, tg in step4(vid, state[:4] + (env,))]
 
     def step4(vid, state):
@@ -486,6 +492,9 @@ def run(prog, tier):
     res.minimum('stream events in c3d::write', nevents, 4)
 
     # exploration
+    outv_ = {g.vertex_of.get(nid) for nid, (kind, name) in uses.items() if (kind == 'arg' and w.nodes[nid]['callee'].get('usr') in prog.funcs) or (kind == 'member' and name in WRITES)}
+    outv_.discard(None)
+    silent_exit = []
     start = (g.ENTRY, (False, False, False, False, frozenset()))
     seen = {start: None}
     work = [start]
@@ -514,6 +523,8 @@ def run(prog, tier):
         if vid == g.NEXIT:
             if st[0] or st[1]:
                 bad_exit.append(cur)
+            elif outv_ and ('#wrote', 'nonnull') not in st[4]:
+                silent_exit.append(cur)
             continue
         if vid == g.XEXIT:
             continue
@@ -589,6 +600,14 @@ def run(prog, tier):
         res.ok('typestate', 'c3d::write: no normal exit with failed or unflushed stream', w.loc(),
                '%d abstract states explored; %d stream events, each allowed to fail' % (nstates, nevents),
                function=w.sig, expr='normal-exit')
+    # every normal return has handed something to the stream: a path that returns before any output (an early `return` on some
+    # argument value) reports success for a file that was never produced (decided on the explored states, i.e. with the flags evaluated)
+    if outv_:
+        if silent_exit:
+            res.viol('typestate', 'c3d::write: a normal return without output', w.loc(), 'a path reaches the normal exit without any section having been handed to the stream: '
+                     'save returns as if the file had been written', function=w.sig, expr='no-output-path', facts={'path': trace(silent_exit[0])}, sure=True)
+        else:
+            res.ok('typestate', 'c3d::write: every normal return follows output', w.loc(), '%d output events; none can be bypassed on the way to the normal exit' % len(outv_), function=w.sig, expr='no-output-path')
     # open check precedes the first write event: implied by the typestate result (a failed open
     # sets failed=True which must not reach the normal exit); recorded as its own obligation
     if not bad_exit:
